@@ -243,11 +243,21 @@ func (gl GitLabReporter) Delete(ctx context.Context, dst any, comment ExistingCo
 	return err
 }
 
-func (gl GitLabReporter) IsEqual(_ any, existing ExistingComment, pending PendingComment) bool {
+func (gl GitLabReporter) IsEqual(dst any, existing ExistingComment, pending PendingComment) bool {
 	if existing.path != pending.path {
 		return false
 	}
-	if existing.line != pending.line {
+	line := pending.line
+	if mr, ok := dst.(gitlabMR); ok && pending.anchor == checks.AnchorBefore {
+		// Comments on removed lines are created with the old side line number only,
+		// and that is the line GitLab will list them under.
+		if diff := getDiffForPath(mr.diffs, pending.path); diff != nil {
+			if dl, found := diffLineFor(parseDiffLines(diff.Diff), pending.line); found {
+				line = dl.old
+			}
+		}
+	}
+	if existing.line != line {
 		return false
 	}
 	return strings.Trim(existing.text, "\n") == strings.Trim(pending.text, "\n")
